@@ -72,14 +72,16 @@ func checkC14Case(ctx *core.Ctx, i int, rep *core.Report) {
 		rep.Sample(map[string]any{"case": i, "shape": c.Shape.String(), "config": c.K.String(), "sink_writes": nWrites, "api_calls": len(golden.Calls), "file_bytes": len(F)})
 	}
 	for k := 0; k < nWrites; k++ {
-		for _, short := range []bool{false, true} {
+		for _, mode := range []string{"no bytes + error", "short count + io.ErrShortWrite", "all bytes + error"} {
 			for _, sticky := range []bool{false, true} {
 				sink := drive.NewSink()
-				sink.FailAt, sink.Short, sink.Sticky = k, short, sticky
+				sink.FailAt, sink.Sticky = k, sticky
+				sink.Short = mode == "short count + io.ErrShortWrite"
+				sink.Full = mode == "all bytes + error"
 				sink.Record = false
 				res := drive.RunWriter(c.W, c.K, sink, &drive.WriteOpts{StopOnError: true})
 				rep.Eval(1)
-				what := fmt.Sprintf("%s: sink write #%d of %d fails (short=%v, permanently=%v)", c.Describe(), k, nWrites, short, sticky)
+				what := fmt.Sprintf("%s: sink write #%d of %d fails (%s, permanently=%v)", c.Describe(), k, nWrites, mode, sticky)
 				if !sink.Fired {
 					rep.Violate("fault-not-reached", what+": the faulty execution performed fewer sink writes than the golden run (non-deterministic write pattern?)", witness)
 					return
@@ -144,11 +146,24 @@ func checkC14Case(ctx *core.Ctx, i int, rep *core.Report) {
 		for j := 0; j < size; j += step {
 			js = append(js, j)
 		}
-		for _, j := range js { // a source that fails after j bytes
+		for ji, j := range js { // a source that fails after j bytes
 			j := j
 			vs = append(vs, variant{fmt.Sprintf("source fails after %d of %d bytes", j, size), func() (io.Reader, uint64) {
 				return &iofault.FailingReader{Data: a.Data, N: j}, uint64(size)
 			}})
+			// the same with the errors a real source produces when its own input ends early, and with the
+			// error arriving together with the last bytes (all legal for an io.Reader); for j == size
+			// always, otherwise for every fourth position
+			if j == size || ji%4 == 1 {
+				for _, e := range []error{io.ErrUnexpectedEOF, io.ErrClosedPipe, fmt.Errorf("wrapped: %w", io.ErrUnexpectedEOF)} {
+					for _, withData := range []bool{false, true} {
+						e, withData := e, withData
+						vs = append(vs, variant{fmt.Sprintf("source fails after %d of %d bytes with %q (error together with the last bytes: %v)", j, size, e.Error(), withData), func() (io.Reader, uint64) {
+							return &iofault.FailingReader{Data: a.Data, N: j, Err: e, WithData: withData}, uint64(size)
+						}})
+					}
+				}
+			}
 		}
 		for d := 1; d <= size; d += step {
 			d := d
@@ -196,9 +211,9 @@ func checkC14Case(ctx *core.Ctx, i int, rep *core.Report) {
 
 func RunC14(ctx *core.Ctx, rep *core.Report) {
 	rep.Level = "fault_enumeration"
-	rep.Rule = "seeded (workload, configuration) pairs; a golden run records every Write the Writer performs on its destination; then EVERY write index k is failed in four ways (0 bytes + error, short count + io.ErrShortWrite) x (only write k, k and all later writes). " +
+	rep.Rule = "seeded (workload, configuration) pairs; a golden run records every Write the Writer performs on its destination; then EVERY write index k is failed in six ways (0 bytes + error, short count + io.ErrShortWrite, all bytes accepted + error) x (only write k, k and all later writes). " +
 		"Oracle: the API call executing when the fault fired returns a non-nil error (NewWriter for the magic), no call panics (the driver stops issuing workload calls at the first error and calls Close once), and the bytes accepted when that call returned are a prefix of the golden output. " +
-		"Every attachment is additionally written from sources that fail after j bytes (every j, or 200 evenly spaced for large ones), end 1..size bytes early, or deliver 1/2/7/64 bytes too many: WriteAttachment must return an error. distinct_nontrivial counts distinct (shape, configuration) pairs enumerated."
+		"Every attachment is additionally written from sources that fail after j bytes (every j, or 200 evenly spaced for large ones, j = size included; with a private error and - at j = size and every fourth j - with io.ErrUnexpectedEOF, a wrapped one and io.ErrClosedPipe, alone or together with the last bytes), end 1..size bytes early, or deliver 1/2/7/64 bytes too many: WriteAttachment must return an error. distinct_nontrivial counts distinct (shape, configuration) pairs enumerated."
 	rep.Assumptions = []string{"sinks honour the io.Writer contract (a short write is accompanied by a non-nil error)", "the writer's sequence of sink writes is deterministic (checked: every fault index of the golden run is reached)"}
 	n := ctx.Pick(120, 4000)
 	core.Parallel(ctx, rep, n, func(i int) { checkC14Case(ctx, i, rep) })
